@@ -348,6 +348,53 @@ def cfgname(cfg):
                                                                cfg["typ"], cfg["tcorr"], cfg["phi0"], cfg["order"]) + ("/var" if cfg.get("var") else "")
 
 
+def extras(numeric, seed):
+    """sampled clauses around the deferred synchronisation (A5): (a) a post-timestep hook that changes velocities acts on the synchronised
+    state and its changes are kept, safe mode on or off; (b) variational particles that are rescaled (a coordinate beyond 1e100) are
+    rescaled once, whether or not the synchronisation is deferred"""
+    base = {"coord": "jacobi", "kernel": "default", "corr": 0, "corr2": 0, "keep": False, "typ": 0, "tcorr": 0, "phi0": "-", "order": 0, "var": False}
+    for fam, coord in (("whfast", "jacobi"), ("whfast", "democraticheliocentric"), ("whfast", "whds"), ("saba", "jacobi"), ("mercurius", "-")):
+        out = {}
+        for safe in (True, False):
+            for hook in (True, False):
+                cfg = dict(base, fam=fam, coord=coord, safe=safe)
+                sim = build(cfg, random.Random(seed))
+                sim.dt = abs(sim.dt)
+
+                def ptm(sp):
+                    s_ = sp.contents
+                    s_.particles[1].vy += 1e-4 * s_.particles[1].x       # depends on the (synchronised) position
+                    s_.particles[2].vx -= 2e-4
+                if hook:
+                    sim.post_timestep_modifications = ptm
+                for _ in range(30):
+                    sim.step()
+                sim.synchronize()
+                out[(safe, hook)] = [(p.x, p.y, p.z) for p in sim.particles]
+                sim._post_timestep_modifications = type(sim._post_timestep_modifications)()
+        d = max(abs(a - b) for p, q in zip(out[(True, True)], out[(False, True)]) for a, b in zip(p, q))
+        eff = max(abs(a - b) for p, q in zip(out[(False, True)], out[(False, False)]) for a, b in zip(p, q))
+        numeric.append({"cfg": "post-timestep hook: %s/%s safe vs deferred" % (fam, coord), "fam": fam, "diff": d, "ref": None})
+        numeric.append({"cfg": "post-timestep hook: %s/%s hook has no effect with deferred synchronisation" % (fam, coord), "fam": fam, "diff": 0.0 if eff > 1e-6 else 1.0, "ref": None})
+    out = {}
+    for safe in (True, False):
+        cfg = dict(base, fam="whfast", safe=safe)
+        sim = build(cfg, random.Random(seed))
+        sim.dt = abs(sim.dt)
+        v = sim.add_variation()
+        v.particles[1].x = 9.9e99
+        v.particles[2].vy = -3.3e99
+        for _ in range(40):
+            sim.step()
+        sim.synchronize()
+        lr = sim.var_config[0]._lrescale
+        out[safe] = (lr, [(p.x, p.vy) for p in (v.particles[i] for i in range(3))])
+    (l1, a), (l2, b) = out[True], out[False]
+    scale = max(abs(c) for p in a for c in p) or 1.0
+    d = max(abs(x * math.exp(l1 - l2) - y) for p, q in zip(a, b) for x, y in zip(p, q)) / scale if abs(l1 - l2) < 600 else float("inf")
+    numeric.append({"cfg": "variational rescale: whfast safe vs deferred (lrescale %.1f vs %.1f)" % (l1, l2), "fam": "whfast", "diff": d if l1 > 0 else 1.0, "ref": None})
+
+
 def main():
     global REC
     cfgs = json.load(open(sys.argv[1]))
@@ -435,6 +482,8 @@ def main():
                         hb.step()
                     ref = max(max(abs(hb.particles[i].x - sa.particles[i].x), abs(hb.particles[i].y - sa.particles[i].y)) for i in range(sa.N))
                 numeric.append({"cfg": name, "fam": cfg["fam"], "diff": d, "ref": ref})
+    if any(c["fam"] == "whfast" for c in cfgs):
+        extras(numeric, seed)
     json.dump({"inner": inner_out, "numeric": numeric}, open(inner_file, "w"))
 
 
